@@ -48,11 +48,27 @@ pub const UNKNOWN: &[&str] = &[
     "LONGLINE",
 ];
 
+/// Incomplete or scrambled forms of the commands the engine does handle (never of `go`, which
+/// would start a search without a limit): lines it cannot act on and has to ignore. Indexed after
+/// UNKNOWN.
+pub const MALFORMED: &[&str] = &[
+    "setoption name",
+    "setoption value 64 name Hash",
+    "setoption name Hash value",
+    "setoption name Clear Hash",
+    "setoption Hash 64",
+    "position fen",
+    "position fen 8/8 w",
+    "position moves",
+];
+
 pub fn sym(i: usize) -> &'static str {
     if i < ALPHABET.len() {
         ALPHABET[i]
-    } else {
+    } else if i < ALPHABET.len() + UNKNOWN.len() {
         UNKNOWN[i - ALPHABET.len()]
+    } else {
+        MALFORMED[i - ALPHABET.len() - UNKNOWN.len()]
     }
 }
 
@@ -117,7 +133,8 @@ pub fn judge(lines: &[&str], r: &RunResult) -> Result<(), String> {
                 i += 1;
             }
             Some("ucinewgame") => pos = Pos::start(),
-            Some("position") => {
+            // (an incomplete position command sets nothing up: the position stays as it was)
+            Some("position") if toks.get(1) == Some(&"startpos") => {
                 pos = Pos::start();
                 if let Some(k) = toks.iter().position(|t| *t == "moves") {
                     for t in &toks[k + 1..] {
@@ -258,9 +275,16 @@ pub fn run(tier: &str, seed: u64, out: &str, engine_hooks: &str, engine_plain: &
             ext.push(i);
         }
     }
+    let mut mal: Vec<usize> = (ALPHABET.len() + UNKNOWN.len()..ALPHABET.len() + UNKNOWN.len() + MALFORMED.len()).collect();
+    for (i, a) in ALPHABET.iter().enumerate() {
+        if matches!(*a, "uci" | "isready" | "go depth 1" | "quit") {
+            mal.push(i);
+        }
+    }
     let mut plan = plan;
     plan.push((engine_plain, "hooks off", &ext, if thorough { 4 } else { 3 }, vec![true]));
     plan.push((engine_plain, "hooks off", &ext, 2, vec![false]));
+    plan.push((engine_plain, "hooks off", &mal, if thorough { 4 } else { 3 }, vec![true]));
     let mut samples = Vec::new();
     for (exe, label, alpha, l, variants) in plan {
         if rep.saturated() {
@@ -307,6 +331,7 @@ pub fn run(tier: &str, seed: u64, out: &str, engine_hooks: &str, engine_plain: &
         .set("rule", "a case = one complete input stream (sequence of lines over the alphabet, with or without a final newline) given to a fresh engine process, then end of input; all cases are distinct")
         .set("alphabet", ALPHABET.iter().map(|a| a.replace('\r', "\\r")).collect::<Vec<_>>())
         .set("unknown_lines", UNKNOWN.iter().map(|a| a.to_string()).collect::<Vec<_>>())
+        .set("incomplete_or_scrambled_commands", MALFORMED.iter().map(|a| a.to_string()).collect::<Vec<_>>())
         .set("runs_containing_quit", with_quit.load(Ordering::Relaxed))
         .set("runs_containing_go", with_go.load(Ordering::Relaxed))
         .set("termination_horizon_s", HORIZON_S)
